@@ -20,7 +20,7 @@ import (
 
 // C13 — ARP spoofing is confined to hunted hosts and undone on StopHunt.
 
-const c13Rule = "(a) synchronous histories of StartHunt / StopHunt / SetDHCPv4IPOffer and received ARP frames (request for the router, other requests, probes, announcements, replies, link-local, malformed) from hunted and non-hunted stations: the frames emitted by each received frame are compared with a model (spoof reply iff the sender is hunted and asks for the router; probe reject iff the prober holds a different IPv4 offer and the probed address is in the home LAN; nothing else), every forged frame goes to a MAC hunted at some point, one loop per MAC; (b) real-time scenarios (start/stop/close calls at drawn offsets within 8 s for 1..3 targets, observed for 15 s, many scenarios concurrently): forged frames only to recently hunted MACs, a restoring ARP within one 6 s cycle (+2 s) after StopHunt, silence 1 s after StopHunt / Close. non-trivial = history with a StopHunt of a started target (a) / scenario observed for >= 7 s after a stop (b); distinct by hash of the history"
+const c13Rule = "(a) synchronous histories of StartHunt (also under another address of the station) / StopHunt / SetDHCPv4IPOffer / DHCPv4Update (the offer confirmed) and received ARP frames (request for the router, other requests, probes, announcements, replies, link-local, malformed) from hunted and non-hunted stations: the frames emitted by each received frame are compared with a model (spoof reply iff the sender is hunted and asks for the router; probe reject iff the prober holds a different IPv4 offer and the probed address is in the home LAN; nothing else), every forged frame goes to a MAC hunted at some point, one loop per MAC; (b) real-time scenarios (start/stop/close calls at drawn offsets within 8 s for 1..3 targets, observed for 15 s, many scenarios concurrently): forged frames only to recently hunted MACs, a forged frame within 2 s of StartHunt and then at least every 9 s while hunted, a restoring ARP within one 6 s cycle (+2 s) after StopHunt, silence 1 s after StopHunt / Close. non-trivial = history with a StopHunt of a started target (a) / scenario observed for >= 7 s after a stop (b); distinct by hash of the history"
 
 type c13Op struct {
 	K    string `json:"k"`              // start stop offer rx settle
